@@ -54,7 +54,7 @@ func main() {
 			}
 		}
 		if *budget == 0 {
-			*budget = 50 * time.Second
+			*budget = 40 * time.Second
 			if *tier == "thorough" {
 				*budget = 25 * time.Minute
 			}
